@@ -19,6 +19,8 @@ Rewrites (one site each):
   CHAIN-SPLIT    a <= t <= b  ->  a <= t and t <= b      (call-free t)
   MSG-EDIT       the text of a raised message changed
   CTOR-LITERAL   list() -> [] , dict() -> {}
+  ADD-UNUSED     an unused local assigned first;  ADD-ASSERT  a vacuous assert first;  ADD-PARAM  a trailing keyword parameter nobody passes
+  ADD-METHOD     an unrelated sibling method / function added next to the function
 
 Purely static: variants are source files in a temp dir outside /repo and /verif,
 analysed by the same engine, then deleted."""
@@ -227,6 +229,26 @@ def equivalents_of(fn: ast.FunctionDef) -> List[Tuple[str, ast.FunctionDef]]:
                             pos = [j for j, x in enumerate(b) if x is t][0]
                             b[pos], b[pos + 1] = b[pos + 1], b[pos]
                         variant(f"L{a.lineno} SWAP-INDEP {ast.unparse(a)[:30]} <-> {ast.unparse(b2)[:30]}", index[id(a)], swp)
+
+    def _k0(new):
+        return 1 if new.body and isinstance(new.body[0], ast.Expr) and isinstance(new.body[0].value, ast.Constant) and isinstance(new.body[0].value.value, str) else 0
+
+    def add_unused(new, _t):
+        new.body.insert(_k0(new), ast.Assign(targets=[ast.Name(id="_unused_probe", ctx=ast.Store())], value=ast.Constant(value=0), lineno=new.lineno, col_offset=0))
+    variant("ADD-UNUSED", 0, add_unused)
+
+    def add_assert(new, _t):
+        new.body.insert(_k0(new), ast.Assert(test=ast.Constant(value=True), msg=None))
+    variant("ADD-ASSERT", 0, add_assert)
+    if not fn.args.kwarg:
+        def add_param(new, _t):
+            new.args.kwonlyargs.append(ast.arg(arg="_probe_option", annotation=None))
+            new.args.kw_defaults.append(ast.Constant(value=None))
+        variant("ADD-PARAM", 0, add_param)
+    probe = ast.parse("def _verif_probe(self=None):\n    return None\n").body[0]
+    wrapper = ast.Module(body=[copy.deepcopy(fn), probe], type_ignores=[])
+    ast.fix_missing_locations(wrapper)
+    out.append(("ADD-METHOD", wrapper))
 
     def ins(new, _t):
         k = 1 if new.body and isinstance(new.body[0], ast.Expr) and isinstance(new.body[0].value, ast.Constant) and isinstance(new.body[0].value.value, str) else 0
